@@ -21,8 +21,9 @@ type Clause struct {
 	Props []string // nil = all props of the contract
 	Line  int
 	// quantifier prefix: forall v T :: body
-	QVars []QVar
-	Free  bool // "free" clause: assumed, not checked (listed as assumption)
+	QVars    []QVar
+	Free     bool // "free" clause: assumed, not checked (listed as assumption)
+	Internal bool
 }
 
 type QVar struct {
@@ -210,6 +211,12 @@ func parseClause(text string, line int) (*Clause, error) {
 	if strings.HasPrefix(text, "free ") {
 		c.Free = true
 		text = strings.TrimSpace(text[5:])
+	}
+	if strings.HasPrefix(text, "internal ") {
+		// exit-state assertion over the function's own locals: proved for the
+		// body, not exported to callers
+		c.Internal = true
+		text = strings.TrimSpace(text[9:])
 	}
 	if m := reProps.FindStringSubmatch(text); m != nil {
 		for _, p := range strings.Split(m[1], ",") {
